@@ -97,6 +97,17 @@ class Opaque:
     what: str
 
 
+class Obj:
+    """A mutable abstract object with named fields (used for `self` of a Vector)."""
+
+    def __init__(self, cls: str, fields: Dict[str, Any]):
+        self.cls = cls
+        self.fields = dict(fields)
+
+    def __repr__(self):
+        return f"<{self.cls} {self.fields}>"
+
+
 NONE = Const(None)
 TRUE = Const(True)
 FALSE = Const(False)
@@ -138,6 +149,7 @@ class Interp:
         self.classes = dict(classes or CORE_CLASSES)
         self.warned: List[str] = []
         self.steps = 0
+        self.hooks: Dict[str, Any] = {}      # qualname -> python callable(interp, recv, args, kwargs) modelling a method
 
     # -- class relations ---------------------------------------------------
     def is_subclass(self, tag: str, of: str) -> bool:
@@ -297,6 +309,8 @@ class Interp:
         elif isinstance(t, (ast.Tuple, ast.List)) and isinstance(v, Tup) and len(v.items) == len(t.elts):
             for e, x in zip(t.elts, v.items):
                 self._assign(e, x, env, f)
+        elif isinstance(t, ast.Attribute) and isinstance(self.ev(t.value, env, f), Obj):
+            self.ev(t.value, env, f).fields[t.attr] = v
         else:
             raise AnalysisError(f"abstract evaluator: assignment target `{short(t)}` in {f.qualname}")
 
@@ -427,6 +441,15 @@ class Interp:
             raise AnalysisError(f"abstract evaluator: DataType has no attribute {e.attr}")
         if isinstance(v, Cls) and e.attr == "__name__":
             return Const(v.tag)
+        if isinstance(v, Obj):
+            if e.attr in v.fields:
+                return v.fields[e.attr]
+            m = self.prog.method(v.cls, e.attr)
+            if m is not None:
+                if "staticmethod" in m.decorators:
+                    return FuncRef(m.qualname)
+                return Tup((FuncRef(m.qualname), v))
+            raise AnalysisError(f"abstract evaluator: {v.cls} object has no modelled attribute {e.attr}")
         if isinstance(v, Opaque):
             return Opaque(f"{v.what}.{e.attr}")
         raise AnalysisError(f"abstract evaluator: attribute `{short(e)}` of {v!r} in {f.qualname}")
@@ -481,9 +504,14 @@ class Interp:
         args = [self.ev(a, env, f) for a in e.args]
         kw = {k.arg: self.ev(k.value, env, f) for k in e.keywords}
         if isinstance(callee, FuncRef):
+            if callee.qualname in self.hooks:
+                return self.hooks[callee.qualname](self, None, args, kw)
             return self._invoke(self.prog.func(callee.qualname), args, kw)
         if isinstance(callee, Tup) and len(callee.items) == 2 and isinstance(callee.items[0], FuncRef):
-            return self._invoke(self.prog.func(callee.items[0].qualname), [callee.items[1]] + args, kw)
+            q = callee.items[0].qualname
+            if q in self.hooks:
+                return self.hooks[q](self, callee.items[1], args, kw)
+            return self._invoke(self.prog.func(q), [callee.items[1]] + args, kw)
         if isinstance(callee, Opaque):
             return Opaque(f"{callee.what}(...)")
         raise AnalysisError(f"abstract evaluator: call `{short(e)}` in {f.qualname} (line {e.lineno})")
